@@ -13,7 +13,7 @@ from typing import Any, Dict, List, Optional
 
 from hypothesis import strategies as st
 
-from ..core import CaseResult, Family, Violation
+from ..core import CaseResult, Family, Violation, pick
 from ..engines import memwire
 from ..engines.memwire import (LogClientSession, LogServerSession, Pair,
                                asyncssh)
@@ -367,11 +367,11 @@ REGIONS = ['len', 'first', 'body', 'tag']
 
 def tamper_strategy():
     flip = st.fixed_dictionaries({'kind': st.just('flip'),
-                                  'region': st.sampled_from(REGIONS),
+                                  'region': pick(REGIONS),
                                   'pos': st.integers(0, 4000),
                                   'bit': st.integers(0, 7)})
     other = st.fixed_dictionaries({
-        'kind': st.sampled_from(['truncate', 'drop', 'dup', 'swap',
+        'kind': pick(['truncate', 'drop', 'dup', 'swap',
                                  'splice']),
         'pos': st.integers(0, 4000)})
     ins = st.fixed_dictionaries({'kind': st.just('insert'),
@@ -380,7 +380,7 @@ def tamper_strategy():
 
 
 def sizes_for(block: int):
-    return st.one_of(st.sampled_from(sorted({0, 1, block - 5, block - 1,
+    return st.one_of(pick(sorted({0, 1, block - 5, block - 1,
                                              block, block + 1, block + 5,
                                              3 * block, 100, 1000, 32768,
                                              40000})),
@@ -392,11 +392,11 @@ def strategy(tier: str):
 
     @st.composite
     def build(draw):
-        enc = draw(st.sampled_from(encs))
-        mac = draw(st.sampled_from(macs))
+        enc = draw(pick(encs))
+        mac = draw(pick(macs))
         block = enc_params(enc, mac)[0]
-        return {'enc': enc, 'mac': mac, 'comp': draw(st.sampled_from(comps)),
-                'dir': draw(st.sampled_from(['cs', 'sc'])),
+        return {'enc': enc, 'mac': mac, 'comp': draw(pick(comps)),
+                'dir': draw(pick(['cs', 'sc'])),
                 'writes': draw(st.lists(sizes_for(block), min_size=1,
                                         max_size=6)),
                 'eof': draw(st.booleans()),
@@ -549,13 +549,13 @@ async def _setup_script(pair, store):
 def setup_strategy(tier: str):
     encs, macs, comps = registries()
     return st.fixed_dictionaries({
-        'enc': st.sampled_from(encs), 'mac': st.sampled_from(macs),
-        'comp': st.sampled_from(comps),
-        'dir': st.sampled_from(['cs', 'sc']),
+        'enc': pick(encs), 'mac': pick(macs),
+        'comp': pick(comps),
+        'dir': pick(['cs', 'sc']),
         'rec': st.integers(0, 7),
         'tamper': st.one_of(
             st.fixed_dictionaries({'kind': st.just('flip'),
-                                   'region': st.sampled_from(REGIONS),
+                                   'region': pick(REGIONS),
                                    'pos': st.integers(0, 400),
                                    'bit': st.integers(0, 7)}),
             st.fixed_dictionaries({'kind': st.just('insert'),
